@@ -42,7 +42,9 @@ RULE = ("every set of 1-3 distinct strict orders over 3 alternatives (dynamic pr
         "(large instances: some reported optimum >= 1). Encoding cases (c12.enc, no solver call): for each of the three "
         "ILP functions the variables/bounds, the multiset of constraints and the objective of the python-mip model = "
         "the mirrored model of Model/ILPEnc.v, on every profile of 1-2 weak orders over m <= 2 (thorough: m <= 3) "
-        "alternatives and random soc/toc profiles m <= 5, n <= 4; non-trivial = m >= 3 and a non-empty constraint list")
+        "alternatives and random soc/toc profiles m <= 5, n <= 4; non-trivial = m >= 3 and a non-empty constraint list. "
+        "Every k_alternative_deletion call (m <= 12) is also compared with the mirrored dynamic programme c12.elp: "
+        "same number of removed alternatives (identical certificates are counted in the distribution)")
 EXHAUSTIVE = {"quick": "k_alternative_deletion on every set of 1-3 distinct strict orders over 3 alternatives; ILP "
                        "encodings (3 functions) on every profile of 1-2 distinct weak orders over m <= 2 alternatives and "
                        "every single weak order over 3",
@@ -55,8 +57,11 @@ TRUSTED = ["the solver: python-mip 2.0 / CBC returns an optimal feasible assignm
            "constraint builders, variable declarations and objectives of is_single_peaked_ILP, "
            "approx_SP_voter_deletion_ILP and approx_SP_alternative_deletion_ILP are MIRRORED (Model/ILPEnc.v), proved sound "
            "and complete for every size (Proofs/ILPEnc.v) and compared with the model python-mip receives (c12.enc)",
-           "(R) not verified: k_alternative_deletion / longest_single_peaked_axis (dynamic programme) - compared with the "
-           "verified reference min_alt_del on bounded inputs and through the verified checker cert_alt at every size; "
+           "k_alternative_deletion / longest_single_peaked_axis (dynamic programme) is MIRRORED (Model/ELPDP.v) and proved "
+           "sound for every size (elp_sound: its output is accepted by cert_alt; approx_valid for the C18 loop); NOT "
+           "proved: its optimality (|removed| = min_alt_del) - compared with the verified reference min_alt_del for "
+           "m <= 6 and with the mirror (same number of removed alternatives) at every size; the mirror fixes the "
+           "iteration order of CPython sets by two parameters, so (axis, removed) itself may differ: counted, not judged",
            "the three ILP functions are additionally compared end-to-end (objective = reference, certificates)"]
 ASSUMPTIONS = ["orders are complete over the instance's alternatives with non-empty classes; instance.orders holds "
                "distinct orders; the objective is unweighted (one unit per distinct order / per alternative); fewer than "
@@ -287,7 +292,7 @@ def generate(tier, seed):
         core = pick_core(rng, alts, prof, 5)
         if fl & 3 or is_strict(prof):
             out.append(mk(alts, prof, fl, 0, core=core, pv=pv, pa=pa, family=fam, large=1))
-    for i in range(20 if not thorough else 300):
+    for i in range(60 if not thorough else 600):
         m = rng.randint(7, 12)
         alts = rand_perm(rng, rng.sample(range(1, 60), m))
         fam = ["vot-planted", "alt-planted", "alt-planted"][i % 3]
@@ -397,6 +402,9 @@ def _plan(c, r):
         d = r.get("dp")
         if d and d[0] == 0:
             plan.append(("cert_dp", "c12.cert_alt", [alts, profile, len(d[2]), d[1], d[2]]))
+    if flags & F_DP:
+        # the mirrored dynamic programme (Model/ELPDP.v) on the same strict profile, at every size
+        plan.append(("elp", "c12.elp", [alts, [[c[0] for c in o] for o in profile]]))
     return plan
 
 
@@ -497,6 +505,10 @@ def _opt_judge(c, r, mres):
         if hi_a is not None and len(removed) > hi_a:
             return _mm("min_alt_del_correct", "k_alternative_deletion removes %d alternatives, but %d suffice (%s)" % (
                 len(removed), hi_a, "verified reference optimum" if mode == 1 else "planted certificate"))
+        m_axis, m_removed = M["elp"]
+        if len(m_removed) != len(removed):
+            return _mm("elp_sound / min_alt_del_correct", "k_alternative_deletion removes %d alternatives %r, the mirrored "
+                       "dynamic programme (Model/ELPDP.v) removes %d %r" % (len(removed), removed, len(m_removed), m_removed))
         if (flags & F_ALT) and r["alt"][1][0] != len(removed):
             return _mm("min_alt_del_correct", "alternative-deletion ILP (%d) and dynamic programme (%d) disagree on a strict profile"
                        % (r["alt"][1][0], len(removed)))
@@ -540,6 +552,10 @@ def _opt_stats(c, r, mres):
             lab += ["call alternative ILP", "alternative ILP %s opt %s" % (DT[dt], _bucket(r["alt"][1][0]))]
         if r.get("dp") and r["dp"][0] == 0:
             lab += ["call k_alternative_deletion", "k_alternative_deletion opt %s" % _bucket(len(r["dp"][2]))]
+            if "elp" in M:
+                same = (M["elp"][0] == r["dp"][1] and M["elp"][1] == r["dp"][2])
+                lab.append("mirror ELP: (axis, removed) %s" % ("identical" if same else "same size, different certificate"))
+                lab.append("mirror ELP m=%d" % len(alts))
     if any(len(o[0]) >= 2 for o in profile):
         lab.append("has tied top")
     return lab
